@@ -334,15 +334,16 @@ def run(ctx):
         ctx.extra["box"] = Nbox
         ctx.extra["orbits_checked"] = n_orbits
         ctx.extra["distinct_point_groups"] = len(cache)
-    # ---- code templates, both modules
+    # ---- code rules, both modules (structural patterns with metavariables: local names are free)
     for rel, short, _tp in N.MODULES:
         mod = core.module(rel)
         fn = mod.func("genhkl_base")
         where = core.loc(mod, fn)
-        txt = core.unparse(fn).replace(" ", "")
-        # shell
-        tests = [n_ for n_ in ast.walk(fn) if isinstance(n_, ast.If) and "sintlmin" in core.unparse(n_.test)]
+        npa = mod.np_alias
+        # shell: the test that mentions both bounds
+        tests = [n_ for n_ in ast.walk(fn) if isinstance(n_, ast.If) and {"sintlmin", "sintlmax"} <= {x.id for x in ast.walk(n_.test) if isinstance(x, ast.Name)}]
         oks = False
+        sv = None
         if len(tests) == 1:
             t = tests[0].test
             if isinstance(t, ast.BoolOp) and isinstance(t.op, ast.And) and len(t.values) == 2:
@@ -350,46 +351,92 @@ def run(ctx):
                 for c in t.values:
                     if isinstance(c, ast.Compare) and len(c.ops) == 1 and isinstance(c.left, ast.Name) and isinstance(c.comparators[0], ast.Name):
                         parts[c.comparators[0].id] = (c.left.id, type(c.ops[0]).__name__)
-                oks = parts == {"sintlmin": ("sintlH", "Gt"), "sintlmax": ("sintlH", "LtE")}
-        ctx.check(oks, "C06:shell:%s" % short, "acceptance is not `sintlH > sintlmin and sintlH <= sintlmax`", where)
+                    elif isinstance(c, ast.Compare) and len(c.ops) == 1 and isinstance(c.left, ast.Name) and isinstance(c.comparators[0], ast.Name) is False:
+                        pass
+                    # mirrored spelling: sintlmin < s
+                    if isinstance(c, ast.Compare) and len(c.ops) == 1 and isinstance(c.left, ast.Name) and c.left.id in ("sintlmin", "sintlmax") \
+                            and isinstance(c.comparators[0], ast.Name):
+                        flip = {"Lt": "Gt", "LtE": "GtE", "Gt": "Lt", "GtE": "LtE"}[type(c.ops[0]).__name__]
+                        parts[c.left.id] = (c.comparators[0].id, flip)
+                if set(parts) == {"sintlmin", "sintlmax"} and parts["sintlmin"][0] == parts["sintlmax"][0]:
+                    sv = parts["sintlmin"][0]
+                    oks = parts["sintlmin"][1] == "Gt" and parts["sintlmax"][1] == "LtE"
+        ctx.check(oks, "C06:shell:%s" % short, "acceptance is not `s > sintlmin and s <= sintlmax` (exclusive lower, inclusive upper bound)", where)
+        if sv is None:
+            raise AnalysisError("%s.genhkl_base: shell test not found" % short)
         # in-sync
-        verdicts = analyse_insync(ctx, mod, fn, short)
+        verdicts = analyse_insync(ctx, mod, fn, short, sintl_var=sv)
         if not verdicts:
             raise AnalysisError("%s.genhkl_base: no append of an hkl row found" % short)
         for (line, name), ok in sorted(verdicts.items()):
             ctx.check(ok, "C06:insync:%s:%s" % (short, name),
-                      "at the append (line %d) sintlH is not guaranteed to be sintl(unit_cell, %s) on every path" % (line, name),
+                      "at the append (line %d) %s is not guaranteed to be sintl(unit_cell, %s) on every path" % (line, sv, name),
                       "%s:%d" % (mod.rel, line), sample={"append_line": line, "hkl": name, "in_sync": ok})
-        # stl appended in the same block as hkl
-        a = list(mod.np_alias)[0]
-        ok_pair = ("H=%s.concatenate((H,[HLAST]))stl=%s.concatenate((stl,[sintlH]))" % (a, a)) in txt.replace("\n", "")
+        # the accepted row and its sin(theta)/lambda are appended together, inside the shell test
+        blk = tests[0].body
+        hk = [b for st in blk for b in [core.match_stmt("M_H = NP.concatenate((M_H, [M_X]))", st, {}, npa)] if b and b["M_X"] != sv]
+        sl_ = [b for st in blk for b in [core.match_stmt("M_S = NP.concatenate((M_S, [M_V]))", st, {}, npa)] if b and b["M_V"] == sv]
+        ok_pair = len(hk) == 1 and len(sl_) == 1 and len(blk) == 2
         ctx.check(ok_pair, "C06:insync:%s:paired-append" % short,
-                  "the hkl row and its sin(theta)/lambda are not appended together", where)
+                  "the accepted hkl row and its sin(theta)/lambda are not appended together (and only they) under the shell test", where)
+        Hn = hk[0]["M_H"] if hk else None
+        Sn = sl_[0]["M_S"] if sl_ else None
         # sort
-        ok_sort = ("stl=%s.transpose([stl])" % a) in txt and ("H=%s.concatenate((H,stl),1)" % a) in txt \
-            and ("H=H[%s.argsort(H,0)[:,3],:]" % a) in txt
-        ctx.check(ok_sort, "C06:sort:%s" % short, "result is not sorted by its sin(theta)/lambda column", where)
-        # integer steps: HNEW/HSAVE are sums of table rows
-        steps = [core.unparse(n_).replace(" ", "") for n_ in ast.walk(fn) if isinstance(n_, ast.Assign)
-                 and isinstance(n_.value, ast.BinOp) and "segm[" in core.unparse(n_.value)]
-        want = {"HNEW=HLAST+segm[segn,1,:]", "HSAVE=HSAVE+segm[segn,2,:]", "HSAVE1=HSAVE1+segm[segn,3,:]"}
-        ctx.check(set(steps) == want, "C06:sort:%s:steps" % short,
-                  "the walk does not advance by the cone generators g1 (row), g2 (plane), g3 (cone): %s" % sorted(steps), where)
+        b0 = {"M_H": Hn, "M_S": Sn}
+        s1 = core.find_stmt("M_S = NP.transpose([M_S])", fn, b0, npa)
+        s2 = core.find_stmt("M_H = NP.concatenate((M_H, M_S), 1)", fn, b0, npa)
+        s3 = core.find_stmt("M_H = M_H[NP.argsort(M_H, 0)[:, 3], :]", fn, b0, npa)
+        rets = [n_ for n_ in ast.walk(fn) if isinstance(n_, ast.Return) and isinstance(n_.value, ast.Name)]
+        ok_sort = len(s1) == len(s2) == len(s3) == 1 and s1[0][0].lineno < s2[0][0].lineno < s3[0][0].lineno \
+            and any(r_.value.id == Hn and r_.lineno > s3[0][0].lineno for r_ in rets)
+        ctx.check(ok_sort, "C06:sort:%s" % short,
+                  "the rows are not [hkl | stl] sorted by the stl column (argsort over column 3) before being returned", where)
+        # the walk advances by the three generators of the current cone
+        steps = {}
+        for n_ in ast.walk(fn):
+            b = core.match_stmt("M_A = M_B + segm[M_i, X_k, :]", n_, {}, npa) if isinstance(n_, ast.Assign) else None
+            if b:
+                k = n_.value.right.slice.elts[1]
+                if isinstance(k, ast.Constant):
+                    steps.setdefault(k.value, []).append((b["M_A"], b["M_B"]))
+        ok_steps = sorted(steps) == [1, 2, 3] and all(len(v) == 1 for v in steps.values()) \
+            and steps[2][0][0] == steps[2][0][1] and steps[3][0][0] == steps[3][0][1]
+        ctx.check(ok_steps, "C06:sort:%s:steps" % short,
+                  "the walk does not advance by the cone generators g1 (row), g2 (plane), g3 (cone) of the current table: %s" % steps, where)
         # genhkl_unique
         fu = mod.func("genhkl_unique")
+        sgv = None
+        for n_ in ast.walk(fu):
+            if isinstance(n_, ast.Assign) and isinstance(n_.value, ast.Call) and isinstance(n_.value.func, ast.Attribute) \
+                    and n_.value.func.attr == "sg" and isinstance(n_.targets[0], ast.Name):
+                sgv = n_.targets[0].id
         call = [n_ for n_ in ast.walk(fu) if isinstance(n_, ast.Call) and getattr(n_.func, "id", "") == "genhkl_base"]
         okc = False
-        if len(call) == 1:
+        if len(call) == 1 and sgv:
             c = call[0]
             pos = [core.unparse(x).replace(" ", "") for x in c.args]
             kw = {k.arg: core.unparse(k.value).replace(" ", "") for k in c.keywords}
-            okc = pos == ["unit_cell", "spg.syscond", "sintlmin", "sintlmax"] and kw == {
-                "crystal_system": "spg.crystal_system", "Laue_class": "spg.Laue", "cell_choice": "spg.cell_choice", "output_stl": "True"}
+            sig = [a.arg for a in fn.args.args]
+            full = dict(zip(sig, pos))
+            full.update(kw)
+            okc = full == {"unit_cell": "unit_cell", "sysconditions": "%s.syscond" % sgv, "sintlmin": "sintlmin", "sintlmax": "sintlmax",
+                           "crystal_system": "%s.crystal_system" % sgv, "Laue_class": "%s.Laue" % sgv,
+                           "cell_choice": "%s.cell_choice" % sgv, "output_stl": "True"}
         ctx.check(okc, "C06:unique:%s:base-call" % short,
-                  "genhkl_unique does not call genhkl_base with the group's syscond/crystal_system/Laue/cell_choice and output_stl=True",
+                  "genhkl_unique does not call genhkl_base with the looked-up group's syscond/crystal_system/Laue/cell_choice and output_stl=True",
                   core.loc(mod, fu))
-        tu = core.unparse(fu).replace(" ", "")
-        oks2 = "ifoutput_stl==False:\nreturnH[:,:3]\nelse:\nreturnH" in tu.replace("    ", "")
+        # slice the stl column off exactly when output_stl == False
+        oks2 = False
+        for n_ in ast.walk(fu):
+            if isinstance(n_, ast.If) and isinstance(n_.test, ast.Compare) and isinstance(n_.test.left, ast.Name) and n_.test.left.id == "output_stl":
+                tval = n_.test.comparators[0]
+                is_false = isinstance(tval, ast.Constant) and tval.value is False and isinstance(n_.test.ops[0], (ast.Eq, ast.Is))
+                is_true = isinstance(tval, ast.Constant) and tval.value is True and isinstance(n_.test.ops[0], (ast.Eq, ast.Is))
+                a_, b_ = (n_.body, n_.orelse) if is_false else (n_.orelse, n_.body) if is_true else (None, None)
+                if a_ and b_ and len(a_) == 1 and len(b_) == 1:
+                    m1 = core.match_stmt("return M_H[:, :3]", a_[0], {}, npa)
+                    m2 = core.match_stmt("return M_H", b_[0], dict(m1) if m1 else {}, npa)
+                    oks2 = bool(m1 and m2)
         ctx.check(oks2, "C06:unique:%s:slice" % short, "the stl column is not removed exactly when output_stl == False", core.loc(mod, fu))
     ctx.not_decided += ["completeness of the walk for one real cell (see C05 early-exit findings)"]
     ctx.assumptions += ["C04 (first nuniq rotations are the point group)", "numpy argsort/concatenate"]
